@@ -28,11 +28,11 @@ CHECKS = {
     "C13": ("GLUE", MC, "Per chunk size: one-instruction step query from arbitrary buffer length/offset (inductive over lines), two-call queries switching fitting, chunk sizes below 2: padding only where needed, valid NOPs of the gap length, instructions shorter than the chunk never straddle, code bytes preserved.", GLUE_NOTE, GLUE_TECH, "5/C13"),
     "C14": ("GLUE", MC, "Per chunk size: two consecutive counting calls from arbitrary offsets; count equals the number of boundary-spanning instructions of that call, positions equal plain assembly, zero for chunk sizes below 2.", GLUE_NOTE, GLUE_TECH, "5/C14"),
     "C15": ("GLUE", MC, "Instance A after an arbitrary history of H calls vs. a fresh instance B with the same options, chunk setting and offset: same return value, final offset and bytes for the final call; failed calls leave earlier bytes intact.", GLUE_NOTE, GLUE_TECH, "5/C15"),
-    "C16": ("TOK+ENC", MC, "Relational queries: two spellings of a line (case flips, inserted blanks, trailing comment / CRLF, label/section/global lines) hand the same string to the tokenizer; the same symbolic value in hexadecimal, decimal and with leading zeros gives identical bytes on two instances.", TOK_NOTE + " " + ENC_NOTE, "CBMC relational queries on the real filter/str_to_instr and on the whole pipeline, SAT", "5/C16"),
+    "C16": ("TOK+ENC", MC, "Relational queries: two spellings of a line (case flips, inserted blanks, runs of 100+ blanks/tabs, trailing comment / CRLF, label/section/global lines) hand the same string to the tokenizer; the same symbolic value in hexadecimal, decimal and with leading zeros gives identical bytes on two instances.", TOK_NOTE + " " + ENC_NOTE, "CBMC relational queries on the real filter/str_to_instr and on the whole pipeline, SAT", "5/C16"),
     "C17": ("GLUE+OS", MC, "Fault schedule symbolic: each kind of OS call may fail at its 1st..4th occurrence, all kinds independently, in four scenarios (managed create/grow/destroy, caller buffer, file assembly, binary output): no CBMC memory-safety failure, documented return values, live mapping still reported, instance destroyable.", OS_NOTE, GLUE_TECH + "; OS model with symbolic fault schedule", "5/C17"),
     "C18": ("SHARED", "other", "Reduced scope: general schedules are NOT explored (CBMC aborts on pthread harnesses over this code). Decided by CBMC with interrupt instrumentation (goto-instrument --isr): at every access to the two index arrays during a build, a reader in another thread may load an entry and sees only its initial or its final value (one preempting reader, access granularity; c18.observe, replayed with two native threads). Decided sequentially by CBMC: the index build is deterministic, idempotent, stores each entry once (S2, S3); every lookup gives the same answer whether its index entry is 0 or built (S4). Audited on the LLVM IR: the only mutable static objects are the two index arrays, all accesses to them are atomic, no non-re-entrant libc call (S1, S5). Race freedom follows by an argument on C11 atomics, which is not a solver verdict.", "The final implication (S1-S5 => per-thread results equal single-threaded ones) is argued, not decided; races inside libc are not covered.", "CBMC queries on the shared lookup state: one-preempting-reader interleavings via goto-instrument --isr, sequential determinism/idempotence/lookup-robustness queries, LLVM IR audit of mutable statics and atomic accesses", "5/C18"),
     "C20": ("CLI", "other", "Reduced scope: the real tools/asmline.c with the asm_* API replaced by a recording model and getopt_long by a contract stub: for every sequence of up to N options and FILE/stdin source, option calls, entry-point selection, -c/-b/-P/-o handling, printed count and exit status are as documented. -r, getopt's string matching and byte-level output equality are outside (the latter is C19/C06 on the library side).", "Recording model of the library API; contract stubs for getopt_long/getline/printf/exit/atoi/strchr/snprintf.", "CBMC bounded symbolic execution of tools/asmline.c with recording API model and getopt contract stub", "5/C20"),
-    "C19": ("GLUE+OS", MC, "File model with symbolic size 0..3 model pages and arbitrary contents: the text handed to the in-memory entry point is the file's contents, NUL-terminated inside the mapping; results passed through; missing file fails; binary output writes exactly [0, offset).", OS_NOTE, GLUE_TECH + "; OS model", "5/C19"),
+    "C19": ("GLUE+OS", MC, "File model with symbolic size 0..3 model pages and arbitrary contents: the text handed to the in-memory entry point is the file's contents, NUL-terminated inside the mapping; results passed through; missing file fails; binary output leaves a file holding exactly [0, offset) whatever the file held before (fopen-mode semantics).", OS_NOTE, GLUE_TECH + "; OS model", "5/C19"),
 }
 
 def main():
